@@ -229,3 +229,19 @@ def write_evidence(pid, ctx, mod, obligations, discharged, violations, extra_cov
     os.makedirs(os.path.join(VERIF, 'evidence'), exist_ok=True)
     with open(os.path.join(VERIF, 'evidence', pid + '.json'), 'w') as f:
         json.dump(ev, f, indent=1, default=repr)
+
+
+def witnesses(ctx, pid, wit):
+    """boundary witnesses: {finding id: function returning True when the property holds at the witness}. A listed open finding prints
+    KNOWN-FINDING when it still fails; a failing witness that is not listed is a violation."""
+    findings = {f['id']: f for f in load_findings(pid) if f.get('status') == 'open'}
+    for fid, fn in wit.items():
+        ctx.evaluations += 1
+        try:
+            ok = bool(fn())
+        except Exception:
+            ok = False
+        if fid in findings:
+            (ctx.known_not_reproduced if ok else ctx.known_reproduced).append(fid if ok else '%s: %s' % (fid, findings[fid]['what_fails']))
+        elif not ok:
+            ctx.violate({'witness': fid}, 'boundary witness %s fails and is not a listed finding' % fid)
